@@ -40,6 +40,7 @@ func Stats() (mapSites, yields, probes, unprobed int) {
 func Globals() []any {
 	var out []any
 	out = append(out, decoder.VerifGlobals()...)
+	out = append(out, decoder.VerifInternalGlobals()...)
 	out = append(out, lang.VerifGlobals()...)
 	out = append(out, reference.VerifGlobals()...)
 	out = append(out, schema.VerifGlobals()...)
@@ -48,11 +49,17 @@ func Globals() []any {
 }
 
 func BarrierReset()                            { vrt.ResetRegions() }
-func BarrierAddRegion(p uintptr, size uintptr) { vrt.AddRegion(unsafe.Pointer(p), size) }
-func BarrierAddMap(id uintptr)                 { vrt.AddMap(id) }
+func BarrierAddRegion(p uintptr, size uintptr, tag byte) { vrt.AddRegion(unsafe.Pointer(p), size, tag) }
+func BarrierAddMap(id uintptr, tag byte)                 { vrt.AddMap(id, tag) }
+
+// BarrierHitsG: hits on package-level state of the library.
+func BarrierHitsG() map[int]int { return vrt.HitsG }
+
+// SyncImported tells whether any instrumented package imports sync or sync/atomic.
+func SyncImported() bool { return vrt.SyncImported }
 func BarrierSeal()                             { vrt.SealRegions() }
 func BarrierEnable(on bool)                    { vrt.BarrierOn = on }
 func BarrierHits() map[int]int                 { return vrt.Hits }
 func BarrierProbes() int64                     { return vrt.Probes }
-func BarrierClearHits()                        { vrt.Hits = map[int]int{}; vrt.HitOrder = nil }
+func BarrierClearHits()                        { vrt.Hits = map[int]int{}; vrt.HitsG = map[int]int{} }
 func BarrierSizes() (int, int)                 { return vrt.NumRegions() }
